@@ -235,7 +235,46 @@ def check_banner(res: Res, p: dict, r0, src0: str, rng: random.Random) -> None:
                      "relayout_files": {k: v for k, v in files.items() if isinstance(v, str)}, "files": {k: bytes(v).hex() for k, v in files.items() if not isinstance(v, str)}})
 
 
+def check_state_across_include(res: Res, rng: random.Random) -> None:
+    """What a run of statements sets up (a table selected with .table, a constant, a macro, a label, the position) is still in force behind
+    the run when the run is moved into an included file: the file's end is no boundary of anything."""
+    tbl = "".join(f"{0x40 + i:02x}={c}\n" for i, c in enumerate("abcdef"))
+    tbl2 = "".join(f"{0x90 + i:02x}={c}\n" for i, c in enumerate("abcdef"))
+    first = rng.choice(["", ".table 'one_q.tbl'\n.text 'fa'\n"])
+    moved = [".table 'two_q.tbl'", "kq := 5", ".macro mq(pa) {\n.db pa, kq\n}", "lq:", ".db 1, 2", "*=0x018000", "sq = lq + 1"]
+    rng.shuffle(moved)
+    moved = moved[:rng.randint(2, len(moved))]
+    after = ""
+    if ".table 'two_q.tbl'" in moved or first:
+        after += ".text 'abc'\n"
+    if "kq := 5" in moved:
+        after += ".db kq\n.if kq {\n.db 7\n}\n"
+    if ".macro mq(pa) {\n.db pa, kq\n}" in moved and "kq := 5" in moved:
+        after += "mq(9)\n"
+    if "lq:" in moved:
+        after += ".dl lq\n"
+        if "sq = lq + 1" in moved:
+            after += ".dl sq\n"
+    run = "\n".join(moved) + "\n"
+    head = "*=0x008000\n.db 0xAA\n" + first
+    wrap = rng.choice(["", "block", "scope"])
+    o, c = {"": ("", ""), "block": ("{\n", "}\n"), "scope": (".scope nq {\n", "}\n")}[wrap]
+    flat = head + o + run + after + c + ".db 0xEE\n"
+    split = head + o + ".include 'part_q.s'\n" + after + c + ".db 0xEE\n"
+    files = {"one_q.tbl": tbl, "two_q.tbl": tbl2}
+    r0 = assemble(flat, files=files)
+    r1 = assemble(split, files={**files, "part_q.s": run if rng.random() < 0.7 else run.rstrip("\n")})
+    res.case(split + run, r0.ok)
+    res.count("knob[include-keeps-state]")
+    if sig(r1) != sig(r0):
+        bad = r1 if not r1.ok else r0
+        d = f"accepted={r0.ok} in one file vs accepted={r1.ok} with the run included ({bad.err_kind}: {bad.err_text[:160]})" if r0.ok != r1.ok else "emitted blocks differ" if _coalesce(r0.blocks) != _coalesce(r1.blocks) else "symbol values differ"
+        res.violate("layout:include", f"a run that sets up {[m.split(chr(10))[0] for m in moved]} moved into an included file changes what follows it: {d}",
+                    {"p": {"rom": None}, "src": flat, "relayout_src": split, "relayout_files": {**files, "part_q.s": run}, "knobs": ["include-keeps-state"]})
+
+
 def check_program(res: Res, p: dict, rng: random.Random, relayouts: int) -> None:
+    check_state_across_include(res, rng)
     check_shared(res, p, rng, False)
     check_shared(res, p, rng, True)
     if rng.random() < 0.35:
@@ -320,7 +359,8 @@ def replay(w: dict) -> Res:
         r0, r1 = assemble(w["src"]), assemble(w["relayout_src"])
     else:
         binf = {k: bytes.fromhex(v) for k, v in (w.get("files") or {}).items()}
-        r0 = assemble(w["src"], files={**binf, **(w.get("relayout_files") or {})} if w.get("banner") else (binf or None), rom=w["p"].get("rom"))
+        both = w.get("banner") or "include-keeps-state" in (w.get("knobs") or [])
+        r0 = assemble(w["src"], files={**binf, **(w.get("relayout_files") or {})} if both else (binf or None), rom=w["p"].get("rom"))
         r1 = assemble(w["relayout_src"], files={**binf, **(w.get("relayout_files") or {})} or None, rom=w["p"].get("rom"))
     res.case(w["relayout_src"], True)
     if sig(r0) != sig(r1):
